@@ -30,7 +30,7 @@ def run_mc(work, tag, text, workers, timeout=3000):
 
 def scenarios_c11(quick, seed):
     """asynchronous-executor half of C11: refreshes / stale reads of a preloaded entry, mostly without writers"""
-    n = 120 if quick else 2000
+    n = 120 if quick else 6000
     out = []
     for j in range(n):
         outs = [["val"], ["err"], ["nf"], ["val", "err"], ["val", "nf", "err"]][j % 5]
@@ -42,7 +42,7 @@ def scenarios_c11(quick, seed):
 def scenarios(prop, quick, seed):
     if prop == "C11":
         return scenarios_c11(quick, seed)
-    n = 320 if quick else 4000
+    n = 320 if quick else 20000
     kinds = [["set"], ["invalidate"], ["compute"], ["evict"], ["set", "invalidate"], ["setifabsent"], ["invalidateAll"], [],
              ["compute", "set"], ["invalidate", "invalidate"], ["setifabsent", "setifabsent"], ["computeinv"], ["computeinv", "computeinv"]]
     out = []
